@@ -90,7 +90,7 @@ def run(ctx):
         return
     # 1. design
     files = {"mc.cfg": cfg("T3" if q else "T3", "N2" if q else "N3", 3 if q else 4, 2),
-             "mc2.cfg": cfg("T2", "N3", 4, 3, kinds="AllOps"),
+             "mc2.cfg": cfg("T2", "N2" if q else "N3", 4, 3, kinds="AllOps"),
              "mc3.cfg": cfg("T2", "N2", 3, 2, starts="StartsBoth"),
              "neg1.cfg": cfg("T2", "N2", 3, 2, ubi="FALSE"),
              "neg2.cfg": cfg("T2", "N2", 3, 2, ae="FALSE"),
